@@ -13,6 +13,22 @@ TB_VALUE = TB_COMMON + [
 ]
 
 PROPS = {
+    "C01": {
+        "n_quick": 330, "n_thorough": 9000,
+        "check_fn": "k01_check",
+        "rule": "for each of 20 operation methods: a wholly known operand tuple (numbers of all classes, booleans, collections / structures of 11 fixed + generated types, keys, "
+                "set elements, nulls) and a weakening of it (each sub-value at any depth replaced with probability 35% by an unknown that admits it: unrefined, not-null, numeric "
+                "bounds inclusive at the value or exclusive beyond it, byte prefixes, length bounds, or the dynamic value at operand level); both runs are compared with the model and "
+                "the abstract result must admit the concrete one; the harness's admits relation is itself compared with the model's on every operand and result; non-trivial = the "
+                "weakening changed at least one operand",
+        "trusted_base": TB_VALUE,
+        "assumptions": ["concrete operands are wholly known (weakenings of already-unknown operands are covered by transitivity of admits only informally)",
+                        "capsule operands are outside the model"],
+        "refuted": ["C01_Add_rounding_refuted (KF-C01-1)", "C01_Equals_text_vs_value_refuted (KF-C01-2)"],
+        "partial": ["soundness is a theorem for LessThan, GreaterThan, Not, And, Or over all weakenings of their operands (plus the total-preorder theory of big.Float comparison they rest on); "
+                    "for Equals/NotEqual, arithmetic, <=, >=, Index, HasIndex, HasElement, Length the boolean property k01_prop is evaluated on the model for every generated pair (vm_compute) "
+                    "and on the implementation by the oracle, not yet proved for all inputs"],
+    },
     "C04": {
         "n_quick": 450, "n_thorough": 8000,
         "check_fn": "k04_check",
